@@ -16,7 +16,8 @@ import (
 	"github.com/libp2p/go-libp2p/core/crypto"
 )
 
-var c20ids = []string{"alice", "bob", "carol"}
+// ids as applications choose them: plain names and path-like names that are not in canonical path form
+var c20ids = []string{"alice", "org//bob", "/orbitdb/./carol"}
 
 // H_C20_keys: a symbolic sequence of create / get / has operations on up to three ids across two keystore
 // instances sharing one datastore (the second instance is what a restart or an evicted cache looks like:
